@@ -159,15 +159,17 @@ def same_instance(ctx, inst, J, name, metadata, where):
         ctx.violation("c14_round_trip_changed_metadata", {"where": where, "got": J.metadata, "want": metadata})
 
 
-def taillard_text(inst, rng):
+def taillard_text(inst, rng, comment="#"):
     r = Ref(inst)
     lines = []
     if rng.random() < 0.7:
-        lines.append("# generated by jsverif")
+        lines.append(comment + " generated by jsverif")
+    if rng.random() < 0.3:
+        lines.append(comment + "second comment line")
     lines.append(f"{r.num_jobs}{rng.choice([' ', '  ', chr(9)])}{r.num_machines}")
     for ids in r.job_ops:
         if rng.random() < 0.2:
-            lines.append("#   a comment between jobs")
+            lines.append(comment + "   a comment between jobs")
         sep = rng.choice([" ", "  ", "\t", "   "])
         row = sep.join(f"{r.op_machines[o][0]}{sep}{r.op_dur[o]}" for o in ids)
         lines.append(rng.choice(["", " ", "\t"]) + row + rng.choice(["", " ", "  "]))
@@ -214,10 +216,12 @@ def run_views(ctx, case):
             fname = rng.choice(["abc.txt", "noext", "a.b.c"])
             path = os.path.join(td, fname)
             with open(path, "w", encoding="utf-8") as f:
-                f.write(taillard_text(inst, rng))
+                csym = rng.choice(["#", "#", "//", "%", "--", "REM"])
+                f.write(taillard_text(inst, rng, csym))
             explicit = rng.random() < 0.5
             T = JobShopInstance.from_taillard_file(
-                path, name="given" if explicit else None, **meta)
+                path, name="given" if explicit else None,
+                **({} if csym == "#" else {"comment_symbol": csym}), **meta)
             same_instance(ctx, inst, T, "given" if explicit else fname.split(".")[0], meta, "taillard")
             check_views(ctx, inst, T, "views of taillard round trip")
     ctx.note_case(case, len(inst["durations"]) >= 2 and gen.num_ops(inst) >= 3,
